@@ -1,7 +1,204 @@
 import AmqModel.Model.Handshake
+import AmqModel.Lemmas.Handshake
+/-!
+# C16 — only a complete handshake yields a connection; failures name their cause
+-/
 namespace AmqModel.Props.C16
-open AmqModel.Handshake
+open AmqModel.Handshake AmqModel.Tune
 
-theorem placeholder : serverSupports [80] [80] = true := by decide
+/-- The frames of a list of reads that the handshake machine looks at (heartbeats are skipped). -/
+def nonHb (reads : List Read) : List HFrame := (reads.flatMap (·.frames)).filter (· ≠ .heartbeat)
+
+private theorem nonHb_eq (reads : List Read) : nonHb reads = nonHbF reads := rfl
+
+/-- SUCCESS ONLY AFTER A COMPLETE HANDSHAKE. If the attempt yields a connection then some prefix
+    of the server's reads — none of them ending the stream — carried, heartbeats aside, exactly
+    Start (offering the client's mechanism and locale), Tune (negotiable) and OpenOk, in that
+    order; and what the client put on the wire is exactly StartOk (its mechanism, response,
+    locale, information), TuneOk (the negotiated triple) and Open (its virtual host).
+    (`k` is the index of the read that completed the handshake, plus one: later reads are never
+    looked at; that read may also be one after which the server goes silent.) -/
+theorem success_only_after_complete_handshake (o : Opts) (reads : List Read) (t : Triple)
+    (h : (handshake false o reads).result = .connected t) :
+    ∃ k mechs locales st,
+      nonHb (reads.take k) = [.start mechs locales, .tune st, .openOk] ∧
+      (∀ r ∈ reads.take k, r.ending = .wouldBlock ∨ r.ending = .silence) ∧
+      serverSupports mechs o.mechanism = true ∧ serverSupports locales o.locale = true ∧
+      makeTuneOk o.tuning st = .ok t ∧
+      (handshake false o reads).pushed =
+        [.startOk o.mechanism o.response o.locale o.information, .tuneOk t, .open_ o.vhost] := by
+  have hi : Inv o .start [] [] := ⟨rfl, rfl⟩
+  obtain ⟨k, hk, he⟩ := hi.connected reads h
+  obtain ⟨m, l, st, hpre, hm, hl, ht, hp⟩ := hk
+  exact ⟨k, m, l, st, by simpa [nonHb_eq] using hpre, he, hm, hl, ht, hp⟩
+
+/-- … and conversely a compliant server gets a connection, however its three frames (with any
+    number of heartbeats around them) are grouped into reads. -/
+theorem compliant_server_connects (o : Opts) (reads : List Read) (mechs locales : Bytes) (st t : Triple)
+    (hf : nonHb reads = [.start mechs locales, .tune st, .openOk])
+    (he : ∀ r ∈ reads, r.ending = .wouldBlock)
+    (hm : serverSupports mechs o.mechanism = true) (hl : serverSupports locales o.locale = true)
+    (ht : makeTuneOk o.tuning st = .ok t) :
+    (handshake false o reads).result = .connected t ∧
+    (handshake false o reads).pushed =
+      [.startOk o.mechanism o.response o.locale o.information, .tuneOk t, .open_ o.vhost] := by
+  have hrun : runFrames o .start (nonHbF reads) [] =
+      (.ok (.done t),
+        [.startOk o.mechanism o.response o.locale o.information, .tuneOk t, .open_ o.vhost]) := by
+    rw [← nonHb_eq, hf]
+    simp [runFrames, hsStep.eq_def, hm, hl, ht]
+  have := runReads_of_run_done (legacy := false) reads .start [] he (by simp [Final]) hrun
+  unfold handshake
+  rw [this]
+  exact ⟨rfl, rfl⟩
+
+/-- STRICTLY IN REACTION. Whatever the server does, what the client writes is a prefix of
+    StartOk, TuneOk, Open, CloseOk (the last only in answer to a Close after Open). -/
+theorem writes_only_in_reaction (o : Opts) (reads : List Read) :
+    ∃ t, (handshake false o reads).pushed <+: [.startOk o.mechanism o.response o.locale o.information, .tuneOk t, .open_ o.vhost, .closeOk] := by
+  have hi : Inv o .start [] [] := ⟨rfl, rfl⟩
+  obtain ⟨s', pre', hi'⟩ := hi.pushed (legacy := false) reads
+  exact hi'.prefix
+
+/-- Nothing at all is written (beyond the protocol header) unless the first thing the server says
+    is a Start the client can work with. -/
+theorem nothing_before_start (o : Opts) (reads : List Read) (f : HFrame) (rest : List HFrame)
+    (hf : nonHb reads = f :: rest)
+    (hbad : ∀ m l, f = .start m l → ¬(serverSupports m o.mechanism = true ∧ serverSupports l o.locale = true)) :
+    (handshake false o reads).pushed = [] ∧ ∃ e, (handshake false o reads).result = .failed e :=
+  runReads_start_unusable reads (by rw [← nonHb_eq]; exact hf) hbad
+
+/-! ### The failure table (one step of the machine; `runReads` ends with the error of the first failing step) -/
+
+theorem unsupported_mechanism (o : Opts) (m l : Bytes) (h : serverSupports m o.mechanism = false) :
+    hsStep o .start (.start m l) = .error (.unsupportedAuthMechanism m o.mechanism) := by
+  simp [hsStep.eq_def, h]
+
+theorem unsupported_locale (o : Opts) (m l : Bytes) (hm : serverSupports m o.mechanism = true)
+    (h : serverSupports l o.locale = false) :
+    hsStep o .start (.start m l) = .error (.unsupportedLocale l o.locale) := by
+  simp [hsStep.eq_def, h, hm]
+
+theorem secure_challenge (o : Opts) : hsStep o .secure .secure = .error .saslSecureNotSupported := rfl
+
+theorem frame_max_too_small (o : Opts) (st : Triple) (v : Nat) (s : HState) (hs : s = .secure ∨ s = .tune)
+    (h : makeTuneOk o.tuning st = .frameMaxTooSmall 4096 v) :
+    hsStep o s (.tune st) = .error (.frameMaxTooSmall 4096 v) := by
+  rcases hs with rfl | rfl <;> simp [hsStep.eq_def, h]
+
+theorem server_close_instead_of_open_ok (o : Opts) (t : Triple) (code : Nat) (text : Bytes) :
+    hsStep o (.open_ t) (.close code text) = .ok (.serverClosing code text, [.closeOk]) := rfl
+
+theorem out_of_order_frame (o : Opts) (s : HState) (f : HFrame) (hf : f ≠ .heartbeat)
+    (hbad : match s, f with
+      | .start, .start _ _ => False
+      | .secure, .secure => False
+      | .secure, .tune _ => False
+      | .tune, .tune _ => False
+      | .open_ _, .close _ _ => False
+      | .open_ _, .openOk => False
+      | _, _ => True) :
+    hsStep o s f = .error .frameUnexpected := by
+  cases s <;> cases f <;> simp [hsStep.eq_def] at hf hbad ⊢
+
+/-- The whole-attempt versions of the rows that depend on how the stream ends. -/
+theorem dropped_after_start_ok (o : Opts) (m l : Bytes) (hbs : List HFrame) (e : ReadEnd) (rest : List Read)
+    (hm : serverSupports m o.mechanism = true) (hl : serverSupports l o.locale = true)
+    (hh : ∀ f ∈ hbs, f = .heartbeat) (he : e = .eof ∨ e = .reset) :
+    (handshake false o (⟨[.start m l], .wouldBlock⟩ :: ⟨hbs, e⟩ :: rest)).result = .failed .invalidCredentials := by
+  have h1 : runFrames o .start (Read.mk [.start m l] .wouldBlock).frames [] =
+      (.ok .secure, [.startOk o.mechanism o.response o.locale o.information]) := by
+    simp [runFrames, hsStep.eq_def, hm, hl]
+  have hfl : hbs.filter (· ≠ .heartbeat) = [] := by
+    simp only [List.filter_eq_nil_iff]
+    intro f hf; simp [hh f hf]
+  have h2 : ∀ acc, runFrames o .secure (Read.mk hbs e).frames acc = (.ok .secure, acc) := by
+    intro acc
+    show runFrames o .secure hbs acc = _
+    rw [← runFrames_filter, hfl]; rfl
+  unfold handshake
+  rw [runReads_cons_ok h1]
+  simp only
+  rw [runReads_cons_ok (h2 _)]
+  rcases he with rfl | rfl <;> simp [mapErr]
+
+-- The three hypotheses are not needed: with the repaired `mapErr`, ConnectionTimeout can only come
+-- from the timeout branch, whatever the server does (`runReads_timeout`).
+set_option linter.unusedVariables false in
+theorem silent_server (o : Opts) (reads : List Read)
+    (he : ∀ r ∈ reads, r.ending = .wouldBlock)
+    (hunfinished : ∀ t, (handshake false o reads).result ≠ .connected t)
+    (hnoerr : ∀ k, ∀ s acc, runFrames o .start (nonHb (reads.take k)) [] = (.ok s, acc) → True) :
+    (∀ e, (handshake false o reads).result = .failed e →
+      e = .connectionTimeout → o.timeout = true) ∧
+    (o.timeout = false → (handshake false o reads).result ≠ .failed .connectionTimeout) := by
+  constructor
+  · rintro e h rfl
+    exact runReads_timeout reads .start [] h
+  · intro hto h
+    have := runReads_timeout reads .start [] h
+    simp [hto] at this
+
+/-- The sharper version of `silent_server`: reads all ending in would-block whose frames are all
+    accepted and leave the machine in `start | secure | tune | open_` end in ConnectionTimeout when
+    a timeout is configured and never return otherwise; what those frames made the client queue
+    has been written. -/
+theorem silent_server_sharp (o : Opts) (reads : List Read) (s : HState) (acc : List CFrame)
+    (he : ∀ r ∈ reads, r.ending = .wouldBlock)
+    (hrun : runFrames o .start (reads.flatMap (·.frames)) [] = (.ok s, acc))
+    (hs : s = .start ∨ s = .secure ∨ s = .tune ∨ ∃ t, s = .open_ t) :
+    handshake false o reads =
+      ⟨.failed (if o.timeout then .connectionTimeout else .hangs), acc⟩ := by
+  refine runReads_of_run_open reads .start [] he ?_ hrun
+  rcases hs with rfl | rfl | rfl | ⟨t, rfl⟩ <;> simp [Final]
+
+theorem server_close_reported (o : Opts) (m l : Bytes) (st t : Triple) (code : Nat) (text : Bytes) (rest : List Read)
+    (hm : serverSupports m o.mechanism = true) (hl : serverSupports l o.locale = true) (ht : makeTuneOk o.tuning st = .ok t) :
+    (handshake false o (⟨[.start m l], .wouldBlock⟩ :: ⟨[.tune st], .wouldBlock⟩ :: ⟨[.close code text], .wouldBlock⟩ :: rest)) =
+      ⟨.failed (.serverClosedConnection code text),
+       [.startOk o.mechanism o.response o.locale o.information, .tuneOk t, .open_ o.vhost, .closeOk]⟩ := by
+  have h1 : runFrames o .start (Read.mk [.start m l] .wouldBlock).frames [] =
+      (.ok .secure, [.startOk o.mechanism o.response o.locale o.information]) := by
+    simp [runFrames, hsStep.eq_def, hm, hl]
+  have h2 : runFrames o .secure (Read.mk [.tune st] .wouldBlock).frames
+      [.startOk o.mechanism o.response o.locale o.information] =
+      (.ok (.open_ t),
+        [.startOk o.mechanism o.response o.locale o.information, .tuneOk t, .open_ o.vhost]) := by
+    simp [runFrames, hsStep.eq_def, ht]
+  have h3 : runFrames o (.open_ t) (Read.mk [.close code text] .wouldBlock).frames
+      [.startOk o.mechanism o.response o.locale o.information, .tuneOk t, .open_ o.vhost] =
+      (.ok (.serverClosing code text),
+        [.startOk o.mechanism o.response o.locale o.information, .tuneOk t, .open_ o.vhost,
+         .closeOk]) := by
+    simp [runFrames, hsStep.eq_def]
+  unfold handshake
+  rw [runReads_cons_ok h1]; simp only
+  rw [runReads_cons_ok h2]; simp only
+  rw [runReads_cons_ok h3]
+
+/-- Mechanism and locale are matched as whole words of the space-separated list. -/
+theorem token_match (tokens : List Bytes) (client : Bytes) (hne : tokens ≠ [])
+    (hns : ∀ t ∈ tokens, 32 ∉ t) :
+    serverSupports ((tokens.intersperse [32]).flatten) client = true ↔ client ∈ tokens := by
+  unfold serverSupports
+  rw [splitSpaces_join tokens hne hns]
+  simp
+
+/-- D9, the code before the repair: a timeout in state Secure was reported as InvalidCredentials. -/
+example :
+    (handshake true ⟨[80], [], [101], [47], none, ⟨0, 0, 60⟩, true⟩ [⟨[.start [80] [101]], .wouldBlock⟩]).result
+      = .failed .invalidCredentials := by decide
+example :
+    (handshake false ⟨[80], [], [101], [47], none, ⟨0, 0, 60⟩, true⟩ [⟨[.start [80] [101]], .wouldBlock⟩]).result
+      = .failed .connectionTimeout := by decide
+
+/-- "done" is only checked after a whole read: a frame after OpenOk in the same read fails the
+    attempt, and the read's output is dropped. -/
+example :
+    handshake false ⟨[80], [], [101], [47], none, ⟨0, 0, 60⟩, true⟩
+      [⟨[.start [80] [101], .tune ⟨0, 0, 60⟩, .openOk, .other], .wouldBlock⟩]
+      = ⟨.failed .frameUnexpected, []⟩ := by decide
+/-- `token_match` with an empty token: "P  Q" offers the empty word. -/
+example : serverSupports [80, 32, 32, 81] [] = true := by decide
 
 end AmqModel.Props.C16
